@@ -172,17 +172,30 @@ Proof.
   split; [vm_compute; reflexivity|]. apply FR_le_by_compute. vm_compute. reflexivity.
 Qed.
 
-(** H-STABLE-DET, in sign form (an absolute error bound is false when |e1|^2|e2|^2 underflows,
-    while the decision stays right): with ANY multiplier at least K_STABLE the float test
-    [|det| > fl(M * sqrt(|e1|^2 |e2|^2))] implies the sign of det is the exact one. *)
+(** the error scale sqrt(|e1|^2 |e2|^2) computed by stableSign, and the guard under which the
+    error analysis is meaningful: no underflow in |e|^2, in the product, or in e1 x e2 *)
+Definition stable_scale (a b c : s2_Point) : PrimFloat.float := snd (stable_core a b c).
+Definition stable_min_scale : PrimFloat.float := 0x1p-480%float.
+Definition stable_ok (a b c : s2_Point) : Prop :=
+  PrimFloat.leb stable_min_scale (stable_scale a b c) = true.
+
+(** H-STABLE-DET, in sign form: with ANY multiplier at least K_STABLE the float test
+    [|det| > fl(M * sqrt(|e1|^2 |e2|^2))] implies that the sign of det is the exact one —
+    PROVIDED the scale does not underflow ([stable_ok]). *)
 Definition H_STABLE_DET : Prop := forall M a b c, ffinite M = true -> D2R K_STABLE <= FR M ->
+  unit_pt a -> unit_pt b -> unit_pt c -> stable_ok a b c ->
+  stable_with M a b c <> 0%Z -> stable_with M a b c = sgnR (detR a b c).
+(** the same WITHOUT the guard is what RobustSign needs for all unit-length inputs; it is FALSE
+    of the unchanged code ([H_STABLE_DET_ALL_refuted] below): when two points differ by a
+    denormal amount, |e|^2 underflows, maxErr = 0 and rounding noise is accepted as a sign. *)
+Definition H_STABLE_DET_ALL : Prop := forall M a b c, ffinite M = true -> D2R K_STABLE <= FR M ->
   unit_pt a -> unit_pt b -> unit_pt c ->
   stable_with M a b c <> 0%Z -> stable_with M a b c = sgnR (detR a b c).
 
 Theorem stable_sound : H_STABLE_DET -> forall a b c, unit_pt a -> unit_pt b -> unit_pt c ->
-  s2_stableSign a b c <> 0%Z -> s2_stableSign a b c = sgnR (detR a b c).
+  stable_ok a b c -> s2_stableSign a b c <> 0%Z -> s2_stableSign a b c = sgnR (detR a b c).
 Proof.
-  intros H a b c Ua Ub Uc. rewrite stable_is. destruct stable_const_ok as [FM LM].
+  intros H a b c Ua Ub Uc Ok. rewrite stable_is. destruct stable_const_ok as [FM LM].
   now apply H.
 Qed.
 
@@ -259,6 +272,7 @@ Section Robust.
   Hypothesis Ua : unit_pt a.
   Hypothesis Ub : unit_pt b.
   Hypothesis Uc : unit_pt c.
+  Hypothesis Ok : stable_ok a b c.
 
   Theorem robust_sign_spec :
     robust_sign a b c = if identical2 a b c then 0%Z else exact_sign a b c.
@@ -269,7 +283,7 @@ Section Robust.
     - unfold expensive_sign. fold (identical2 a b c).
       destruct (identical2 a b c) eqn:I; [reflexivity|]. cbv zeta.
       destruct (Z.eqb_spec (s2_stableSign a b c) 0) as [E2|E2]; simpl; [reflexivity|].
-      pose proof (stable_sound HS a b c Ua Ub Uc E2) as Hs.
+      pose proof (stable_sound HS a b c Ua Ub Uc Ok E2) as Hs.
       rewrite Hs. symmetry. apply exact_sign_det. intros D0. rewrite D0, sgnR_0 in Hs. contradiction.
     - pose proof (triage_sound HT a b c Ua Ub Uc E) as Hs.
       assert (D0 : detR a b c <> 0). { intros D0. rewrite D0, sgnR_0 in Hs. contradiction. }
@@ -285,13 +299,20 @@ Section Robust.
     - exfalso. apply D0. now apply identical2_det.
     - now apply exact_sign_det.
   Qed.
-
-  Theorem robust_sign_zero_iff : robust_sign a b c = 0%Z <-> identical2 a b c = true.
-  Proof.
-    rewrite robust_sign_spec. destruct (identical2 a b c); split; intros; auto; try discriminate.
-    exfalso. now apply (exact_sign_nonzero a b c).
-  Qed.
 End Robust.
+
+(** Indeterminate iff two arguments are identical: needs the triage hypothesis only *)
+Theorem robust_sign_zero_iff : H_TRIAGE_DET -> forall a b c, unit_pt a -> unit_pt b -> unit_pt c ->
+  (robust_sign a b c = 0%Z <-> identical2 a b c = true).
+Proof.
+  intros HT a b c Ua Ub Uc. unfold robust_sign. cbv zeta.
+  destruct (Z.eqb_spec (s2_triageSign a b c) 0) as [E|E].
+  - apply expensive_sign_zero_iff.
+  - split; [intros H; contradiction|]. intros I. exfalso.
+    pose proof (triage_sound HT a b c Ua Ub Uc E) as Hs.
+    rewrite (identical2_det a b c) in Hs; try apply Ua; try apply Ub; try apply Uc; auto.
+    rewrite sgnR_0 in Hs. contradiction.
+Qed.
 
 Lemma identical2_rot a b c : identical2 b c a = identical2 a b c.
 Proof. unfold identical2. destruct (s2_Point_eqb a b), (s2_Point_eqb b c), (s2_Point_eqb c a); reflexivity. Qed.
@@ -303,18 +324,20 @@ Proof.
 Qed.
 
 Theorem robust_sign_rotate : H_TRIAGE_DET -> H_STABLE_DET -> forall a b c,
-  unit_pt a -> unit_pt b -> unit_pt c -> robust_sign b c a = robust_sign a b c.
+  unit_pt a -> unit_pt b -> unit_pt c -> stable_ok a b c -> stable_ok b c a ->
+  robust_sign b c a = robust_sign a b c.
 Proof.
-  intros HT HS a b c Ua Ub Uc. rewrite !robust_sign_spec by assumption.
+  intros HT HS a b c Ua Ub Uc Ok1 Ok2. rewrite !robust_sign_spec by assumption.
   rewrite identical2_rot. destruct (identical2 a b c) eqn:I; [reflexivity|].
   destruct Ua as [Fa _], Ub as [Fb _], Uc as [Fc _].
   apply (exact_sign_rotate a b c true); auto. now apply identical2_false_distinct.
 Qed.
 
 Theorem robust_sign_swap : H_TRIAGE_DET -> H_STABLE_DET -> forall a b c,
-  unit_pt a -> unit_pt b -> unit_pt c -> robust_sign c b a = (- robust_sign a b c)%Z.
+  unit_pt a -> unit_pt b -> unit_pt c -> stable_ok a b c -> stable_ok c b a ->
+  robust_sign c b a = (- robust_sign a b c)%Z.
 Proof.
-  intros HT HS a b c Ua Ub Uc. rewrite !robust_sign_spec by assumption.
+  intros HT HS a b c Ua Ub Uc Ok1 Ok2. rewrite !robust_sign_spec by assumption.
   destruct Ua as [Fa _], Ub as [Fb _], Uc as [Fc _].
   rewrite identical2_rev by assumption. destruct (identical2 a b c) eqn:I; [reflexivity|].
   apply (exact_sign_swap13 a b c true); auto. now apply identical2_false_distinct.
@@ -481,3 +504,54 @@ Proof. vm_compute. repeat split. Qed.
 Example ex_compare : compare_distances ex_x ex_y ex_z = (-1)%Z /\ compare_distances_stage ex_x ex_y ex_z = 5%Z /\
   compare_distances ex_x ex_z ex_y = 1%Z /\ compare_distance ex_x ex_y 2%float = 0%Z.
 Proof. vm_compute. repeat split. Qed.
+
+(** * FINDING: stableSign accepts rounding noise when |e|^2 underflows (unchanged /repo) *)
+Lemma inv_pow44 : / 2 ^ 44 = D2R (Dy 1 (-44)).
+Proof. unfold D2R. simpl. lra. Qed.
+
+Lemma unit_by_compute p : finite_pt p = true ->
+  (let n := pv_norm2 (pv_of_point p) in
+   (dcmp (dsub n done) (Dy 1 (-44)) <=? 0)%Z && (dcmp (dsub done n) (Dy 1 (-44)) <=? 0)%Z) = true ->
+  unit_pt p.
+Proof.
+  intros F H. split; [exact F|]. cbv zeta in H. apply andb_true_iff in H. destruct H as [H1 H2].
+  apply Z.leb_le in H1, H2. rewrite dcmp_correct, D2R_sub, pv_norm2_correct, D2R_one, <- inv_pow44 in H1, H2.
+  apply Rabs_le. split.
+  - destruct (sgnR_cases (1 - norm2R p - / 2 ^ 44)) as [[L E]|[[L E]|[L E]]]; rewrite E in H2; try lia; lra.
+  - destruct (sgnR_cases (norm2R p - 1 - / 2 ^ 44)) as [[L E]|[[L E]|[L E]]]; rewrite E in H1; try lia; lra.
+Qed.
+
+Definition bad_a : s2_Point :=
+  mk_s2_Point (mk_r3_Vector 0x1.90f7bd8cd8e08p-1 (-0x1.c55408c56be46p-3) (-0x1.2987f204089a9p-1)).
+Definition bad_b : s2_Point :=
+  mk_s2_Point (mk_r3_Vector 0 0x1.f84b33442996fp-2 0x1.bd9b7e6fd452p-1).
+(** bad_b with X = -5e-324 *)
+Definition bad_c : s2_Point :=
+  mk_s2_Point (mk_r3_Vector (-0x1p-1074) 0x1.f84b33442996fp-2 0x1.bd9b7e6fd452p-1).
+
+Lemma bad_unit : unit_pt bad_a /\ unit_pt bad_b /\ unit_pt bad_c.
+Proof. repeat split; apply unit_by_compute; vm_compute; reflexivity. Qed.
+Lemma bad_det : sgnR (detR bad_a bad_b bad_c) = (-1)%Z.
+Proof. rewrite <- exact_det_sign_correct. vm_compute. reflexivity. Qed.
+
+Theorem H_STABLE_DET_ALL_refuted : ~ H_STABLE_DET_ALL.
+Proof.
+  intros H. destruct bad_unit as (Ua & Ub & Uc). destruct stable_const_ok as [FM LM].
+  specialize (H detErrMul bad_a bad_b bad_c FM LM Ua Ub Uc).
+  assert (E : stable_with detErrMul bad_a bad_b bad_c = 1%Z) by (vm_compute; reflexivity).
+  rewrite E, bad_det in H. assert (1 <> 0)%Z by lia. specialize (H H0). discriminate.
+Qed.
+
+(** the full-strength statement about RobustSign (no guard) is false of the unchanged code *)
+Theorem robust_sign_det_refuted : exists a b c, unit_pt a /\ unit_pt b /\ unit_pt c /\
+  detR a b c <> 0 /\ robust_sign a b c <> sgnR (detR a b c).
+Proof.
+  exists bad_a, bad_b, bad_c. destruct bad_unit as (Ua & Ub & Uc).
+  split; [exact Ua|]. split; [exact Ub|]. split; [exact Uc|]. split.
+  - intros E. pose proof bad_det as H. rewrite E, sgnR_0 in H. discriminate.
+  - rewrite bad_det. assert (E : robust_sign bad_a bad_b bad_c = 1%Z) by (vm_compute; reflexivity).
+    rewrite E. discriminate.
+Qed.
+
+Example stable_ok_example : stable_ok ex_x ex_y ex_z /\ ~ stable_ok bad_a bad_b bad_c.
+Proof. split; [vm_compute; reflexivity|]. unfold stable_ok. vm_compute. discriminate. Qed.
